@@ -299,7 +299,13 @@ func runWorker(args []string) int {
 				}
 			}
 		}
-		if rr.V == nil && !raceEnabled && *freshEvery > 0 && core.Mix(0xf5e5, uint64(r))%uint64(*freshEvery) == 0 {
+		// (focused runs four times as often: what a library does once per process - fill a table,
+		// publish an entry - is contended only if several tasks want the same thing first)
+		plainFreshRate := uint64(*freshEvery)
+		if rr.Ctx.C["probe_focused_runs"] > 0 && plainFreshRate >= 4 {
+			plainFreshRate /= 4
+		}
+		if rr.V == nil && !raceEnabled && *freshEvery > 0 && core.Mix(0xf5e5, uint64(r))%plainFreshRate == 0 {
 			code, out, _ := execTapeProc(os.Args[0], *prop, *tier, tp.Rec, true)
 			res.Counters["probe_whole_run_in_fresh_process"]++
 			switch {
@@ -317,6 +323,14 @@ func runWorker(args []string) int {
 					return nil, nil
 				}
 				small, execs := core.Shrink(tp.Rec, class, oracle, 150, 40*time.Second)
+				// the minimised tape has to fail again, on its own, twice in a row; otherwise the
+				// original tape is what gets reported (the orchestrator re-establishes it once more)
+				for k := 0; k < 2; k++ {
+					if v, _ := oracle(small); v == nil {
+						small = tp.Rec
+						break
+					}
+				}
 				fin := execTape(*prop, small, true, env) // description only; the verdict is the child's
 				rf := replayFile{Property: *prop, Seed: *seed, Run: r, Tier: *tier, Class: class, Facts: "fresh-process", Msg: msgOf(out), Event: 0,
 					Digest: "fresh", Tape: small, Desc: fin.Ctx.Desc, Trace: tail(fin.Ctx.L.Lines, 200), OrigTape: len(tp.Rec), FreshOnly: true, Build: buildName()}
@@ -547,6 +561,11 @@ func runReplay(args []string) int {
 		return 2
 	}
 	env := map[string]string{"tier": rf.Tier, "self": os.Args[0], "race": strconv.FormatBool(raceEnabled)}
+	if rf.FreshOnly {
+		// the verdict was established by exec-tape in a young process, where the interleaved phase
+		// comes first (what a library does once per process must happen while tasks are concurrent)
+		env["fresh"] = "1"
+	}
 	if len(rf.History) > 0 {
 		debug.SetGCPercent(-1) // process state (e.g. sync.Pool contents) must not depend on GC timing
 		runHistory(rf.Property, rf.Seed, rf.History, env)
